@@ -324,7 +324,18 @@ func compactKey(g *hx.Gen) []byte {
 }
 
 func badNode(g *hx.Gen) ([]byte, string) {
-	switch g.Rng.Intn(7) {
+	switch g.Rng.Intn(10) {
+	case 7: // the key element is a list
+		return rlpList(rlpList(rlpStr(rbytes(g, 1))), badItem(g)), "raw:key-is-list"
+	case 8: // terminated key whose value element is a list
+		return rlpList(rlpStr([]byte{0x20}), rlpList(rlpStr(rbytes(g, 2)))), "raw:value-is-list"
+	case 9: // 17 elements, the value slot is a list
+		items := make([][]byte, 17)
+		for i := range items {
+			items[i] = []byte{0x80}
+		}
+		items[16] = rlpList(rlpStr(rbytes(g, 1)))
+		return rlpList(items...), "raw:slot16-is-list"
 	case 0, 1: // two-element list: short node shapes
 		return rlpList(rlpStr(compactKey(g)), badItem(g)), "raw:short"
 	case 2: // 17-element list
@@ -473,12 +484,24 @@ func genLargeCase(g *hx.Gen, sp largeSpec) {
 			ops = append(ops, "prove k="+hx.Hex(keys[g.Rng.Intn(upto)]))
 		}
 		ops = append(ops, "prove k="+hx.Hex(rbytes(g, 32)))
+		if sp.secure { // the preimages went through the same write batch as the nodes
+			for j := 0; j < 12; j++ {
+				ops = append(ops, "getkey k="+hx.Hex(keys[g.Rng.Intn(upto)]))
+			}
+		}
 	}
 	for i := range keys {
 		put(i)
 	}
 	n1 := len(keys)
 	switch sp.mode {
+	case "lockprobe":
+		ops = append(ops, "lockprobe")
+		g.Case(fmt.Sprintf("large %s kind=%s keys=%d mode=%s", sp.name, kind, len(keys), sp.mode), ops, true)
+		return
+	case "diskfail":
+		// several batch writes in one Database.Commit, each failing in turn
+		ops = append(ops, "diskfail what=commit")
 	case "cap":
 		// commit into the node database, let Cap flush everything to disk through ITS batch loop, then reopen from disk
 		ops = append(ops, "commit", "cap limit=0", "reopen mode=disk")
@@ -516,16 +539,25 @@ func genLargeCase(g *hx.Gen, sp largeSpec) {
 // copies the key" (known_findings.json, fixed entry cap-membatch-key-aliasing), so the cases run.
 const capCases = true
 
+// lockProbeCases: on the unchanged tree Database.Commit returns with db.lock.RLock still held when the batch write of the
+// preimage loop fails (finding proposed in /verif/proposed/C10-commit-error-leaks-read-lock.md, monitor class
+// commit-error-leaks-read-lock).  The `lockprobe` op and its case are ready; switch on once recorded or repaired.
+const lockProbeCases = false
+
 func genLarge(g *hx.Gen) {
 	T := dbm.IdealBatchSize // 100 KiB: Database.commit / Cap flush the write batch when it holds at least this much
 	specs := []largeSpec{
 		{name: "900x64", n: 900, second: 900, mode: "commit-reopen"},
 		{name: "900x64-secure", secure: true, n: 900, mode: "commit-reopen"},
+		// > 100 KiB of preimages in one Database.Commit: the preimage loop flushes the write batch too (3600 x 32 bytes)
+		{name: "3600-secure-preimages", secure: true, n: 3600, mode: "commit-reopen"},
 		{name: "below-threshold", target: T - 1, mode: "commit-reopen"},
 		{name: "at-threshold", target: T, second: 300, mode: "commit-reopen"},
 		{name: "above-threshold", target: T + 1, mode: "commit-reopen"},
 		{name: "three-flushes", n: 2600, mode: "commit-reopen"},
 		{name: "cap-flush", n: 1100, mode: "cap"},
+		{name: "write-failures", n: 2100, mode: "diskfail"},
+		{name: "preimage-flush-fails", secure: true, n: 3600, mode: "lockprobe"},
 		{name: "gc-then-commit", n: 1000, mode: "gc"},
 	}
 	if g.Thorough() {
@@ -538,7 +570,7 @@ func genLarge(g *hx.Gen) {
 		}
 	}
 	for _, sp := range specs {
-		if sp.mode == "cap" && !capCases {
+		if (sp.mode == "cap" && !capCases) || (sp.mode == "lockprobe" && !lockProbeCases) {
 			continue
 		}
 		genLargeCase(g, sp)
@@ -548,6 +580,7 @@ func genLarge(g *hx.Gen) {
 func (P) Generate(g *hx.Gen) {
 	genRaw(g)
 	genLarge(g)
+	genWide(g)
 	// corpus: the in-tree TestInsert / TestDelete vectors and the prefix-key iteration order witness
 	g.Case("corpus insert doe/dog/dogglesworth", []string{"case", "new kind=plain",
 		"put k=646f65 v=72656e64656572", "put k=646f67 v=7075707079", "put k=646f67676c6573776f727468 v=636174", "hash",
